@@ -103,6 +103,15 @@ class Iso:
         else:
             if a.tobytes() != b.tobytes():
                 self.d(path, "tensor bytes differ")
+            else:
+                # the element VALUES as well: bytes produced in the wrong memory order round-trip to
+                # equal bytes but to permuted values
+                try:
+                    xa, xb = np.ascontiguousarray(a.numpy()), np.ascontiguousarray(b.numpy())
+                    if xa.shape != xb.shape or xa.tobytes() != xb.tobytes():
+                        self.d(path, "tensor values (numpy()) differ although tobytes() agree")
+                except Exception as e:  # noqa: BLE001
+                    self.d(path, f"tensor numpy() raised {type(e).__name__}")
 
     # ---- values -------------------------------------------------------------------------------
     def match(self, path, a, b) -> bool:
